@@ -137,13 +137,14 @@ Qed.
 
 Lemma parse_value_ser v rest : wval_ok v = true -> parse_value (wtype v) (ser_value v ++ rest) = WOk (v, rest).
 Proof.
-  destruct v as [n | b | b | b]; cbn [wval_ok wtype ser_value]; intro H.
-  - apply N.ltb_lt in H. cbv beta iota delta [parse_value]. rewrite varint_roundtrip by exact H. reflexivity.
-  - apply Nat.eqb_eq in H. cbv beta iota delta [parse_value].
+  destruct v as [n | b | b | b]; cbn [wval_ok wtype ser_value]; intro H; unfold parse_value.
+  - apply N.ltb_lt in H. change (0 =? 0) with true. cbn iota. rewrite varint_roundtrip by exact H. reflexivity.
+  - apply Nat.eqb_eq in H. change (1 =? 0) with false. change (1 =? 1) with true. cbn iota.
     replace 8 with (N.of_nat (length b)) by (rewrite H; reflexivity). rewrite takeN_app. reflexivity.
-  - apply N.ltb_lt in H. cbv beta iota delta [parse_value]. rewrite <- app_assoc.
-    rewrite varint_roundtrip by exact H. rewrite takeN_app. reflexivity.
-  - apply Nat.eqb_eq in H. cbv beta iota delta [parse_value].
+  - apply N.ltb_lt in H. change (2 =? 0) with false. change (2 =? 1) with false. change (2 =? 2) with true. cbn iota.
+    rewrite <- app_assoc. rewrite varint_roundtrip by exact H. rewrite takeN_app. reflexivity.
+  - apply Nat.eqb_eq in H. change (5 =? 0) with false. change (5 =? 1) with false. change (5 =? 2) with false.
+    change (5 =? 5) with true. cbn iota.
     replace 4 with (N.of_nat (length b)) by (rewrite H; reflexivity). rewrite takeN_app. reflexivity.
 Qed.
 
@@ -222,6 +223,64 @@ Qed.
 
 Lemma wire_roundtrip fs : forallb field_ok fs = true -> wire_parse (ser_fields fs) = WOk fs.
 Proof. intro H. unfold wire_parse. apply parse_fields_ser; [exact H | lia]. Qed.
+
+(* ---------- whatever the parser returns is canonical: parse . serialise . parse = parse ---------- *)
+Lemma varint_decode_lt bs v r : varint_decode bs = Some (v, r) -> v < two64.
+Proof.
+  unfold varint_decode. destruct (varint_dec 10 bs) as [[v' r']|]; [|discriminate].
+  intro H. inversion H. subst. apply N.mod_lt. unfold two64. lia.
+Qed.
+
+Lemma takeN_length n bs b r : takeN n bs = Some (b, r) -> N.of_nat (length b) = n.
+Proof.
+  unfold takeN. destruct (n <=? N.of_nat (length bs)) eqn:E; [|discriminate]. apply N.leb_le in E.
+  intro H. inversion H. subst. rewrite firstn_length_le by lia. apply N2Nat.id.
+Qed.
+
+Lemma parse_value_ok wt bs v r : parse_value wt bs = WOk (v, r) -> wval_ok v = true /\ wtype v = wt.
+Proof.
+  unfold parse_value.
+  destruct (wt =? 0) eqn:E0.
+  { apply N.eqb_eq in E0. destruct (varint_decode bs) as [[x r']|] eqn:D; [|discriminate].
+    intro H. inversion H. subst. cbn [wval_ok wtype]. split; [|reflexivity].
+    apply N.ltb_lt. eapply varint_decode_lt. exact D. }
+  destruct (wt =? 1) eqn:E1.
+  { apply N.eqb_eq in E1. destruct (takeN 8 bs) as [[b r']|] eqn:T; [|discriminate].
+    intro H. inversion H. subst. cbn [wval_ok wtype]. split; [|reflexivity].
+    apply takeN_length in T. apply Nat.eqb_eq. lia. }
+  destruct (wt =? 2) eqn:E2.
+  { apply N.eqb_eq in E2. destruct (varint_decode bs) as [[l r0]|] eqn:D; [|discriminate].
+    destruct (takeN l r0) as [[b r']|] eqn:T; [|discriminate].
+    intro H. inversion H. subst. cbn [wval_ok wtype]. split; [|reflexivity].
+    apply takeN_length in T. rewrite T. apply N.ltb_lt. eapply varint_decode_lt. exact D. }
+  destruct (wt =? 5) eqn:E5.
+  { apply N.eqb_eq in E5. destruct (takeN 4 bs) as [[b r']|] eqn:T; [|discriminate].
+    intro H. inversion H. subst. cbn [wval_ok wtype]. split; [|reflexivity].
+    apply takeN_length in T. apply Nat.eqb_eq. lia. }
+  destruct ((wt =? 3) || (wt =? 4)); discriminate.
+Qed.
+
+Lemma parse_fields_ok fuel : forall bs fs, parse_fields fuel bs = WOk fs -> forallb field_ok fs = true.
+Proof.
+  induction fuel as [|f IH]; intros bs fs H.
+  - destruct bs; cbn in H; [inversion H; reflexivity | discriminate].
+  - destruct bs as [|b t]; [cbn in H; inversion H; reflexivity|].
+    rewrite parse_fields_step in H.
+    destruct (varint_decode (b :: t)) as [[tag r]|] eqn:D; [|discriminate].
+    destruct (tag / 8 =? 0) eqn:Z; [discriminate|].
+    destruct (parse_value (tag mod 8) r) as [[v r']| |] eqn:P; try discriminate.
+    destruct (parse_fields f r') as [fs'| |] eqn:R; try discriminate.
+    inversion H. subst. cbn [forallb]. rewrite (IH r' fs' R). rewrite andb_true_r.
+    unfold field_ok, fno_ok. cbn [fst snd]. destruct (parse_value_ok _ _ _ _ P) as [Hv _]. rewrite Hv.
+    apply N.eqb_neq in Z. apply varint_decode_lt in D. unfold two64 in D.
+    rewrite andb_true_r. apply andb_true_iff. split; [apply N.leb_le | apply N.ltb_lt]; lia.
+Qed.
+
+Lemma wire_parse_canonical bs fs : wire_parse bs = WOk fs -> forallb field_ok fs = true.
+Proof. apply parse_fields_ok. Qed.
+
+Lemma wire_parse_normalises bs fs : wire_parse bs = WOk fs -> wire_parse (ser_fields fs) = WOk fs.
+Proof. intro H. apply wire_roundtrip. eapply wire_parse_canonical. exact H. Qed.
 
 (* ---------- trees ---------- *)
 Definition lift (sch : schema) (d : nat) (m : N) (f : field) : wres tfield :=
